@@ -38,6 +38,11 @@ def hostile_segments(rng, quick):
         "lone-trailer": lambda: "B" + hx(b"\xab" * 16 + b"NNNN"),
         "level-jump": lambda: "A%d,B%s,A%d" % (rng.choice([30, 32000]), hx(b"\xab" * 16 + rng.bytes(20)), 0),
         "shifted-preamble-tail": lambda: "B" + hx(b"\xab" * 16 + b"ZCZC-" + b"WWW\xd7"),
+        # a burst the framer accepts (prefix within its bit-error budget) whose data breaks off after one, two or three bytes: the
+        # combiner is handed an estimate of that length
+        "prefix-then-invalid": lambda: "B" + hx(b"\xab" * 16 + (lambda pre, k: pre[:k] + bytes([pre[k] ^ 0x40]) + pre[k + 1:])(rng.choice([b"ZCZC", b"NNNN"]), rng.range(1, 3))
+                                               + newH()[4:rng.range(4, 30)]),
+        "short-bursts-pair": lambda: (lambda b: "B%s,S1.00,B%s" % (b, b))(hx(b"\xab" * 16 + rng.choice([b"ZCZC", b"NNNN"])[:4] + bytes([rng.choice([0x03, 0x80, 0x1f])]))),
     }
     names = sorted(kinds)
     n = rng.choice([1, 2, 3, 5])
